@@ -207,7 +207,8 @@ def work(shard, res, tier, seed):
             run_match(db, vec, res, "sums", budget=15)
     if "entries" in shard:
         db = load_db("manager")
-        pairs = G.deletions(rng, shard["entries"]) + G.redox_family(rng, shard["entries"] // 4)
+        pairs = G.deletions(rng, shard["entries"]) + G.redox_family(rng, shard["entries"] // 4) + \
+            G.dihalogen_oxygen_loss(rng, shard["entries"] // 4)
         for tag, rx in pairs:
             entry_one(rx, db, res)
     if "pipeline" in shard:
@@ -325,7 +326,8 @@ def pipeline_part(n, rng, res):
     try:
         cases = rowlib.corpus_cases(rng, n, 10, [{"batch_size": None, "threshold": 0, "n_jobs": 1}])
         cases += rowlib.gen_cases(G.deletions(rng, n), 10, [{"batch_size": None, "threshold": 0, "n_jobs": 1}], "del")
-        cases += rowlib.gen_cases(G.two_sided_oxygen(rng, n // 2) + G.redox_family(rng, n // 4), 10,
+        cases += rowlib.gen_cases(G.two_sided_oxygen(rng, n // 2) + G.redox_family(rng, n // 4)
+                                  + G.dihalogen_oxygen_loss(rng, n // 2), 10,
                                   [{"batch_size": None, "threshold": 0, "n_jobs": 1}], "both")
         for c in cases:
             out = rowlib.run_case(c, trace=False)
